@@ -54,9 +54,12 @@ type refItem struct {
 }
 
 // refParse parses everything the peer wrote after its header into top-level constructs.
-func refParse(b []byte) []refItem {
+func refParse(b []byte, ws bool) []refItem {
 	d := xml.NewDecoder(bytes.NewReader(b))
 	depth := 0
+	if ws {
+		depth = 1 // WebSocket framing: no enclosing element
+	}
 	var items []refItem
 	var cur *refItem
 	for {
@@ -82,6 +85,12 @@ func refParse(b []byte) []refItem {
 		if depth == 1 {
 			switch t := tok.(type) {
 			case xml.StartElement:
+				if ws && t.Name.Space == nsFraming {
+					if t.Name.Local == "close" {
+						return append(items, refItem{kind: "close"})
+					}
+					return append(items, refItem{kind: "restart"})
+				}
 				depth = 2
 				cur = &refItem{kind: "elem", el: Elem{Start: t, Off: off, Toks: []xml.Token{t}}, forbidden: -1}
 			case xml.EndElement:
@@ -132,7 +141,15 @@ type c08Inv struct {
 	firstErr error
 }
 
-func genElement(rc *RC, n *int, depth int) string {
+// c08Gen: what the generator has to know about the session.
+type c08Gen struct {
+	ws         bool
+	bare, full string
+}
+
+const nsFraming = "urn:ietf:params:xml:ns:xmpp-framing"
+
+func genElement(rc *RC, n *int, depth int, g *c08Gen) string {
 	ch := rc.Ch
 	*n++
 	names := []string{"message", "presence", "iq", "x", "data"}
@@ -142,11 +159,11 @@ func genElement(rc *RC, n *int, depth int) string {
 	if depth == 0 {
 		switch ch.Int("workload", 4) {
 		case 0:
-			sb.WriteString(` from="me@example.net"`)
+			sb.WriteString(` from="` + g.bare + `"`)
 		case 1:
 			sb.WriteString(` from="other@example.net/r"`)
 		case 2:
-			sb.WriteString(` from="me@example.net/sut"`)
+			sb.WriteString(` from="` + g.full + `"`)
 		}
 		if name == "iq" {
 			sb.WriteString(` type="` + []string{"result", "get", "set", "error"}[ch.Int("workload", 4)] + `"`)
@@ -154,6 +171,8 @@ func genElement(rc *RC, n *int, depth int) string {
 		fmt.Fprintf(&sb, ` id="e%d"`, *n)
 		if name == "x" || name == "data" {
 			sb.WriteString(` xmlns="urn:other"`)
+		} else if g.ws {
+			sb.WriteString(` xmlns="jabber:client"`) // RFC 7395: every top-level element declares its namespace
 		}
 	}
 	if ch.Chance("workload", 1, 4) {
@@ -165,7 +184,7 @@ func genElement(rc *RC, n *int, depth int) string {
 	for i := 0; i < kids; i++ {
 		switch k := ch.Int("workload", 12); {
 		case k < 4 && depth < 3:
-			sb.WriteString(genElement(rc, n, depth+1))
+			sb.WriteString(genElement(rc, n, depth+1, g))
 		case k < 7:
 			fmt.Fprintf(&sb, "text%d &amp; more", *n)
 		case k == 7:
@@ -183,10 +202,18 @@ func genElement(rc *RC, n *int, depth int) string {
 
 func runC08(rc *RC) {
 	ch := rc.Ch
-	opts := E2Opts{S2S: false, Chunk: true}
+	opts := E2Opts{S2S: ch.Chance("workload", 1, 4), Chunk: true}
+	if !opts.S2S && ch.Chance("workload", 1, 3) {
+		opts.WS = true
+	}
 	e := rc.NewE2(opts)
 	if e == nil {
 		return
+	}
+	g := &c08Gen{ws: opts.WS, bare: e.Local.Bare().String(), full: e.Local.String()}
+	streamPfx, streamDecl := "stream:", ""
+	if opts.WS {
+		streamPfx, streamDecl = "", ` xmlns="`+nsStream+`"`
 	}
 	chunkMode := ch.Int("workload", 3)
 	switch chunkMode {
@@ -205,7 +232,7 @@ func runC08(rc *RC) {
 	for i := 0; i < nItems && term == ""; i++ {
 		switch k := ch.Int("workload", 30); {
 		case k < 16:
-			sb.WriteString(genElement(rc, &n, 0))
+			sb.WriteString(genElement(rc, &n, 0, g))
 		case k < 19:
 			sb.WriteString([]string{" ", "\n", "\t \r\n"}[ch.Int("workload", 3)])
 		case k == 19:
@@ -223,32 +250,40 @@ func runC08(rc *RC) {
 			sb.WriteString("stray text<x xmlns='urn:other'/>")
 		case k == 23:
 			term = "streamerror"
-			sb.WriteString(`<stream:error><conflict xmlns='urn:ietf:params:xml:ns:xmpp-streams'/></stream:error>`)
+			fmt.Fprintf(&sb, `<%serror%s><conflict xmlns='urn:ietf:params:xml:ns:xmpp-streams'/></%serror>`, streamPfx, streamDecl, streamPfx)
 		case k == 24:
 			term = "restart"
-			sb.WriteString(`<stream:stream xmlns='jabber:client' xmlns:stream='http://etherx.jabber.org/streams' version='1.0' id='again'>`)
+			if opts.WS {
+				sb.WriteString(`<open xmlns="` + nsFraming + `" version='1.0' id='again'/>`)
+			} else {
+				fmt.Fprintf(&sb, `<stream:stream xmlns='%s' xmlns:stream='http://etherx.jabber.org/streams' version='1.0' id='again'>`, e.NS)
+			}
 		case k == 25:
 			term = "unknownstream"
-			sb.WriteString(`<stream:foo/>`)
+			fmt.Fprintf(&sb, `<%sfoo%s/>`, streamPfx, streamDecl)
 		case k == 26:
 			term = "malformed"
-			sb.WriteString(`<message><body></message>`)
+			sb.WriteString(`<message xmlns="jabber:client"><body></message>`)
 		case k == 27:
 			// not a terminator for the generator: the closing tag still follows, so
 			// that Serve returns even if the handler swallows the read error
+			nsd := ""
+			if opts.WS {
+				nsd = ` xmlns="jabber:client"`
+			}
 			sb.WriteString([]string{
-				`<message id="nf"><body>a</body><!-- c --><x/></message>`,
-				`<message id="nf"><x><stream:error><conflict xmlns='urn:ietf:params:xml:ns:xmpp-streams'/></stream:error></x></message>`,
-				`<iq type="result" id="nf"><?pi x?></iq>`,
-				`<presence id="nf"><stream:features/></presence>`,
+				`<message` + nsd + ` id="nf"><body>a</body><!-- c --><x/></message>`,
+				`<message` + nsd + ` id="nf"><x><` + streamPfx + `error` + streamDecl + `><conflict xmlns='urn:ietf:params:xml:ns:xmpp-streams'/></` + streamPfx + `error></x></message>`,
+				`<iq` + nsd + ` type="result" id="nf"><?pi x?></iq>`,
+				`<presence` + nsd + ` id="nf"><` + streamPfx + `features` + streamDecl + `/></presence>`,
 			}[ch.Int("workload", 4)])
 		case k == 28:
 			term = "eof-mid"
-			full := genElement(rc, &n, 0)
+			full := genElement(rc, &n, 0, g)
 			sb.WriteString(full[:ch.Range("workload", 1, len(full)-1)])
 		default:
 			term = "close"
-			sb.WriteString(closeTag)
+			sb.WriteString(e.CloseTag())
 		}
 	}
 	if term == "" {
@@ -256,12 +291,12 @@ func runC08(rc *RC) {
 			term = "eof"
 		} else {
 			term = "close"
-			sb.WriteString(closeTag)
+			sb.WriteString(e.CloseTag())
 		}
 	}
 	streamText := sb.String()
-	rc.Describe("chunk=%d term=%s stream=%q", chunkMode, term, clip(streamText, 300))
-	rc.CaseKey = term
+	rc.Describe("s2s=%v ws=%v chunk=%d term=%s stream=%q", opts.S2S, opts.WS, chunkMode, term, clip(streamText, 300))
+	rc.CaseKey = fmt.Sprint(term, opts.S2S, opts.WS)
 
 	// ---- handler with consumption programs ----
 	var invs []*c08Inv
@@ -269,6 +304,17 @@ func runC08(rc *RC) {
 		inv := &c08Inv{start: tokStr(*start)}
 		invs = append(invs, inv)
 		mode := ch.Int("handler", 4) // 0 none, 1 some, 2 all, 3 all + past the end
+		// what the handler writes must not matter either: nothing, a complete element, or a partial one (start tag only)
+		switch wr := ch.Int("handler", 6); wr {
+		case 4, 5:
+			st := el("", "message", "id", fmt.Sprintf("w%d", len(invs)), "to", "x@example.net")
+			t.EncodeToken(st)
+			if wr == 4 {
+				t.EncodeToken(st.End())
+			} else {
+				rc.S.Probes["handler-partial-write"]++
+			}
+		}
 		limit := -1
 		switch mode {
 		case 0:
@@ -334,7 +380,7 @@ func runC08(rc *RC) {
 	st := rc.S.Run(func() bool { return e.ServeDone && peerDone }, 60000, time.Minute)
 
 	// ---- reference model ----
-	items := refParse(e.PeerStream())
+	items := refParse(e.PeerStream(), opts.WS)
 	var expect []refItem
 	termKind := ""
 	swallowed := false
